@@ -8,7 +8,8 @@
       those tokens.
    2. The clauses of C08 that the faithful model falsifies, each with its witness script (replayed
       on the implementation, z3 and cvc5 by harness/c08.py / the builder's report):
-        undeclared_identifier_refuted, quoted_numeral_refuted, definefun_capture_refuted;
+        undeclared_identifier_refuted, quoted_numeral_refuted, definefun_capture_refuted,
+        let_capture_refuted;
       and, for the clauses repaired in parser.py (parallel let, binders shadow definitions), the
       former witnesses as positive statements: let_parallel_witness, let_parallel_family,
       binder_shadows_definition_witness.
@@ -148,6 +149,32 @@ Lemma definefun_capture_refuted :
     exists I, std_eval (sig_of [("y", TBool)]) I capture_expanded = Some (VBool true).
 Proof.
   eexists. eexists. split; [vm_compute; reflexivity|]. split.
+  - intros I. cbn. emi as [[xs [Hv H]]|_]; [|reflexivity].
+    exfalso. destruct xs as [|v [|? ?]]; cbn in Hv; try tauto.
+    cbn in H. destruct (vbool v); discriminate.
+  - exists (interp_xy (VBool true) (VBool true)). vm_compute.
+    emi as [_|H]; [reflexivity|].
+    exfalso. apply H. exists [VBool false]. split; [cbn; auto|].
+    vm_compute. emi as [E|_]; [discriminate E | reflexivity].
+Qed.
+
+(* the same capture without any definition: a let-bound term is pasted, as it is, under a
+   quantifier over one of its symbols (quantified variables are ordinary symbols).  Here SmtStd.v
+   speaks directly: y denotes the declared constant a, so the text says "some Boolean differs from
+   a" (true); the reader returns exists a. not (a <-> a) (false) *)
+Definition let_capture_text :=
+  "(declare-fun a () Bool)(assert (let ((y a)) (exists ((a Bool)) (not (= a y)))))".
+Definition let_capture_sexp : sexp :=
+  SList [Atom "let"; SList [SList [Atom "y"; Atom "a"]];
+         SList [Atom "exists"; SList [SList [Atom "a"; Atom "Bool"]]; SList [Atom "not"; SList [Atom "="; Atom "a"; Atom "y"]]]].
+
+Lemma let_capture_refuted :
+  exists t,
+    parse_model let_capture_text = Ok [decl "a" TBool; mkC "assert" [ATerm t]] /\
+    (forall I, eval I t = VBool false) /\
+    exists I, std_eval (sig_of [("a", TBool)]) I let_capture_sexp = Some (VBool true).
+Proof.
+  eexists. split; [vm_compute; reflexivity|]. split.
   - intros I. cbn. emi as [[xs [Hv H]]|_]; [|reflexivity].
     exfalso. destruct xs as [|v [|? ?]]; cbn in Hv; try tauto.
     cbn in H. destruct (vbool v); discriminate.
